@@ -29,12 +29,18 @@ def plan(tier, seed):
             q.witness_defs = {'WIT_NSOLVE': 5}
             qs.append(q)
         qs += [rfs_query('C13', 2, p, t, maxcorr=1, group=2) for p in ([0x9, 0x6] if tier != 'thorough' else [0x9, 0x6, 0x7, 0xe, 0xb, 0xd, 0xf])]
+    # group 3: two right-hand sides, 1x1: the first column is pinned to a run with one correction, the second is arbitrary --
+    # every column whose starting backward error exceeds eps gets its correction, like the first one
+    for t in (0, 1, 2):
+        q = rfs_query('C13', 1, 1, t, maxcorr=3, group=3, nrhs=2, timeout=600)
+        q.defs['PINCOL0'] = None; q.name += '.pin0'
+        qs.append(q)
     return qs
 
 META = {
     'level': 'model_checking',
     'engines': 'E2 (Real): real dgsrfs + real sp_dgemv; dgstrs returns ARBITRARY corrections, dlacon_ ends at once',
-    'bounds': {'matrices': 'residual sense: n<=2 (quick: 5 patterns, thorough: all 15); truthfulness of berr: 1x1 only (denser cases did not finish within the cap); all real values of A, B and the starting X', 'trans': 'N, T, C', 'corrections': 'arbitrary values; 1x1: the whole loop (up to ITMAX = 5 corrections, a 5-correction run is the witness); 2x2: paths with at most 1 correction step (quick) are followed'},
+    'bounds': {'matrices': 'residual sense: n<=2 (quick: 5 patterns, thorough: all 15); truthfulness of berr: 1x1 only (denser cases did not finish within the cap); all real values of A, B and the starting X', 'trans': 'N, T, C', 'right-hand sides': 'one per query, plus 1x1 with two right-hand sides where the first column is pinned to a one-correction run and the second is arbitrary', 'corrections': 'arbitrary values; 1x1: the whole loop (up to ITMAX = 5 corrections, a 5-correction run is the witness); 2x2: paths with at most 1 correction step (quick) are followed'},
     'outside': ['berr = O((n+1) eps) for well-conditioned matrices and "ferr dominates the true error": statements about rounding and about the Hager/Higham estimator, vacuous in exact arithmetic and NOT decided',
                 'the scaling by R / C inside the ferr loop (equed != NOEQUIL)', 'n > 2'],
     'assumptions': ['ordered-field reinterpretation of double; machine constants exact'],
